@@ -237,6 +237,8 @@ class Model:
                 return len(text) & 1
             if k == "str":
                 return "<" + text + ">"
+            if k == "ptr" and not (o.d.get("cb", 0) & 16):
+                return "unowned"    # no release function: the executor hands out static storage
             return text             # ptr: the executor's block holds a copy of the text
         if k == "ptr":
             raise Reject(tok, "pointer option without parse callback")
